@@ -118,11 +118,14 @@ pub struct RefParser {
     pub env: Env,
     /// names in definition order
     pub order: Vec<String>,
+    /// accept references to names defined later (in another document of a set); `refparse_set` checks
+    /// afterwards that every one of them got defined
+    pub forward: bool,
 }
 
 impl RefParser {
     pub fn new() -> Self {
-        RefParser { env: Env::new(), order: vec![] }
+        RefParser { env: Env::new(), order: vec![], forward: false }
     }
 
     pub fn parse(&mut self, j: &J, enclosing: Option<&str>) -> Result<S, ParseErr> {
@@ -149,7 +152,7 @@ impl RefParser {
         } else {
             join(&enclosing.map(|x| x.to_string()), s)
         };
-        if self.env.contains_key(&full) {
+        if self.env.contains_key(&full) || self.forward {
             Ok(S::Ref(full))
         } else {
             err(format!("unknown name {full}"))
@@ -287,6 +290,30 @@ pub fn refparse(j: &J) -> Result<(S, Env), ParseErr> {
     let mut p = RefParser::new();
     let s = p.parse(j, None)?;
     Ok((s, p.env))
+}
+
+/// Parse a set of documents that may refer to each other's definitions, in any order.
+pub fn refparse_set(js: &[&J]) -> Result<(Vec<S>, Env), ParseErr> {
+    fn refs_defined(s: &S, env: &Env) -> bool {
+        match s {
+            S::Ref(n) => env.contains_key(n),
+            S::Array(x) | S::Map(x) | S::Logical(_, x) => refs_defined(x, env),
+            S::Union(b) => b.iter().all(|x| refs_defined(x, env)),
+            S::Record { fields, .. } => fields.iter().all(|f| refs_defined(&f.ty, env)),
+            _ => true,
+        }
+    }
+    let mut p = RefParser::new();
+    p.forward = true;
+    let mut roots = vec![];
+    for j in js {
+        roots.push(p.parse(j, None)?);
+    }
+    if roots.iter().chain(p.env.values()).all(|s| refs_defined(s, &p.env)) {
+        Ok((roots, p.env))
+    } else {
+        err("a reference is not defined anywhere in the set")
+    }
 }
 
 pub fn refparse_str(text: &str) -> Result<(S, Env), ParseErr> {
